@@ -86,7 +86,14 @@ def fold_case(j):
         b = [0, ArrayDimRange(e2, e2).static_lbound]
     except BaseException as ex:  # noqa
         b = [2, KIND.get(type(ex).__name__, 99), type(ex).__name__]
-    return [ty, fr, b]
+    ct = [tyid(ch.type) for ch in inner(e).children]
+    return [ty, fr, b, ct]
+
+
+def inner(e):
+    while isinstance(e, E.ParenthesizedExpr):
+        e = e.child
+    return e
 
 
 def instr_out(final):
